@@ -49,7 +49,8 @@ EXPECTED_PROBES = ["multi_chunk_array_written", "zero_dim_array", "empty_array_o
                    "other_process_restart", "listing_order_nonidentity", "completion_order_nonfifo",
                    "kind_tensor", "kind_module", "kind_obj_in_container", "kind_npscalar",
                    "kind_hybrid_module", "dot_prefixed_name", "kind_qvector", "kind_qdataset",
-                   "one_object_under_two_names", "unusual_path_shape", "other_interpreter_restart", "bulk_str", "bulk_dict",
+                   "one_object_under_two_names", "unusual_path_shape", "other_interpreter_restart",
+                   "tensor_view_big_leaf", "tensor_view_big_nonleaf", "tensor_transposed", "bulk_str", "bulk_dict",
                    "bulk_intlist", "bulk_attrs"]
 
 
@@ -156,6 +157,8 @@ def _probe_graph(spec, probes):
             bump(probes, "set_roundtrip")
         elif k in ("tensor", "module", "npscalar"):
             bump(probes, f"kind_{k}")
+            if k == "tensor" and s.get("storage", "own") != "own":
+                bump(probes, "tensor_" + s["storage"])
         elif k in ("qvector", "qdataset"):
             bump(probes, f"kind_{k}")
         elif k == "obj" and s.get("cls") == "Hybrid":
